@@ -33,9 +33,13 @@ FLAGS = ['unchecked', 'ignore_output', 'ignore_out', 'ignore_err', 'match_out',
          'match_err', 'cc', 'ignore_output_cc', 'match_out_cc', 'match_err_cc']
 
 
-def stream(role, which, kind):
+def stream(role, which, kind, alt=0):
     g = GOLD[role][which]
-    return {'same': g, 'diff_m': f'other {M} text\n',
+    # "different, but contains the match string": another text, or (every
+    # other case) the golden text with other line endings
+    diff_m = f'other {M} text\n' if alt % 2 == 0 else (
+        g.replace('\n', '\r\n') if alt % 4 == 1 else g.replace('\n', '\r'))
+    return {'same': g, 'diff_m': diff_m,
             'diff_nom': 'other text\n', 'empty': ''}[kind]
 
 
@@ -71,8 +75,8 @@ def directive(case):
                            ('cc', 'ccExitSame', 'ccOut', 'ccErr')):
         d[role] = {
             'exit': GOLD[role]['exit'] if case[ex] else DIFF_EXIT[role],
-            'out': stream(role, 'out', case[o]),
-            'err': stream(role, 'err', case[e])
+            'out': stream(role, 'out', case[o], case.get('cid', 0)),
+            'err': stream(role, 'err', case[e], case.get('cid', 0) // 2)
         }
     return d
 
@@ -150,6 +154,7 @@ def main():
                 cases.append((st['case'], st['expected']))
     groups = {}
     for k, (case, exp) in enumerate(cases):
+        case['cid'] = k   # selects the concrete text of a stream kind
         groups.setdefault(tuple(case[f] for f in FLAGS), []).append((k, case))
     base = common.subscratch('c09')
     jobs = [(flags, cs, os.path.join(base, f'g{i}'))
